@@ -21,7 +21,7 @@ def run(ctx):
     rnd = random.Random(ctx.seed)
     quick = ctx.tier == "quick"
     dev = ctx.known_devs()
-    progs = F.c13_chains(ctx.tier, rnd, excs=("ZeroDivisionError",) if quick else ("ZeroDivisionError", "KeyError", "KeyboardInterrupt"))
+    progs = F.c13_chains(ctx.tier, rnd, excs=("ZeroDivisionError", "RecursionError") if quick else ("ZeroDivisionError", "RecursionError", "KeyError", "KeyboardInterrupt"))
     agg = run_family("C13chain", progs, NAMES, dev=dev, invariants=INVS, perms=(0, 1) if quick else (0, 1, 2), timeout=1800)
     ctx.add_family(agg)
     agg = run_family("C13metal", F.c13_metal(ctx.tier, rnd), NAMES + ["macroname"], dev=dev, invariants=INVS, perms=(0, 1), timeout=1800)
